@@ -75,7 +75,7 @@ type monitorOp struct {
 	inNext  int32
 }
 
-func (m *monitorOp) GetPool() *model.VectorPool { return m.inner.GetPool() }
+func (m *monitorOp) GetPool() *model.VectorPool                { return m.inner.GetPool() }
 func (m *monitorOp) Explain() (string, []model.VectorOperator) { return m.inner.Explain() }
 
 func (m *monitorOp) Series(ctx context.Context) ([]labels.Labels, error) {
